@@ -20,6 +20,9 @@ struct Plan
   int actObs = 0, actUnobs = 0; bool actUd = false, actUdReplace = false, racyObs = false, racyUd = false;
   bool peerData = false, appData = false, dataAtEnd = false, earlyData = false;
   double raceJitterMs = 0; bool stallAtRace = false;
+  // read-mode script (sessions with a raw plain peer): Sync, peer bytes buffered, optional partial receiveSync drain,
+  // optional Disabled flip / live flush, then after the end: flush overlapping the close and/or after the close was seen
+  bool rm = false, rmPartialDrain = false, rmDisabledFlip = false, rmLiveFlush = false, rmOverlap = false; int rmAfter = 0;
   double estMs = 0;
 };
 
@@ -77,6 +80,50 @@ struct Run : Hist
     {
       std::lock_guard<std::mutex> g(mu);
       inconcl.push_back(std::string("close-not-delivered-while-running:") + origin);
+    }
+  }
+  // ---- read-mode script; `sendPeer(n)` makes the raw peer send n bytes to this session
+  template <class F> void readModeBefore(uint64_t sid, const Plan &p, vf::Rng &r, F sendPeer)
+  {
+    if (!setMode(sid, ReadMode::Sync)) { countL("readmode_sync_refused"); return; }
+    countL("readmode_sync_sessions");
+    sendPeer(8 + int(r.below(50)));
+    if (p.rmPartialDrain)
+    {
+      char b[8]; size_t len = 1 + r.below(3);
+      auto rr = T->receiveSync(sid, b, len, std::chrono::milliseconds(3000));
+      countL(rr.isOk() ? "readmode_partial_drains" : "readmode_receive_sync_errors");
+    }
+    else sleepMs(10 + double(r.below(20)));
+    if (p.rmDisabledFlip) { setMode(sid, ReadMode::Disabled); sendPeer(4); sleepMs(double(r.below(5))); setMode(sid, ReadMode::Sync); countL("readmode_disabled_flips"); }
+    if (p.rmLiveFlush)
+    {
+      setMode(sid, ReadMode::Async); countL("readmode_live_flush_calls");
+      if (r.chance(0.7)) { setMode(sid, ReadMode::Sync); sendPeer(8 + int(r.below(50))); sleepMs(10 + double(r.below(15))); }
+    }
+  }
+  void readModeOverlap(uint64_t sid, const Plan &p, vf::Rng &r)
+  {
+    if (!p.rmOverlap) return;
+    if (r.chance(0.5)) sleepMs(double(r.below(30)) / 10.0);
+    setMode(sid, ReadMode::Async); countL("readmode_flush_overlapping_end_calls");
+  }
+  void readModeAfter(uint64_t sid, const Plan &p, vf::Rng &r)
+  {
+    if (!isClosed(sid)) return;
+    switch (p.rmAfter)
+    {
+    case 0: setMode(sid, ReadMode::Async); countL("readmode_flush_after_close_calls"); break;
+    case 1:
+    {
+      char b[64];
+      for (int i = 0; i < 8; i++) { size_t len = 1 + r.below(60); auto rr = T->receiveSync(sid, b, len, std::chrono::milliseconds(200)); if (!rr.isOk()) break; countL("readmode_drains_after_close"); }
+      setMode(sid, ReadMode::Async); countL("readmode_flush_after_close_drained_calls");
+      break;
+    }
+    case 2: setMode(sid, ReadMode::Disabled); setMode(sid, ReadMode::Async); countL("readmode_disabled_then_async_after_close"); break;
+    case 3: { ReadMode m; bool has = T->getReadMode(sid, m); countL(has ? "readmode_entry_present_after_close" : "readmode_entry_absent_after_close"); setMode(sid, ReadMode::Sync); setMode(sid, ReadMode::Async); break; }
+    default: break;
     }
   }
   uint64_t sidOfPort(uint16_t port, double ms)
@@ -199,6 +246,8 @@ struct Run : Hist
     // ---- application-side registrations and some traffic
     actorRegs(sid, p, r);
     if (sid2 && r.chance(0.6)) actorRegs(sid2, p, r);
+    const bool rm = p.rm && pfd >= 0 && !pssl && !bufSmall && (p.kind == K_OUT_PLAIN || p.kind == K_IN_PLAIN) && !isClosed(sid);
+    if (rm) readModeBefore(sid, p, r, [&](int n) { (void)send(pfd, junk, size_t(std::min(n, 64)), MSG_NOSIGNAL | MSG_DONTWAIT); });
     if (p.peerData && pfd >= 0 && !pssl && (p.kind == K_OUT_PLAIN || p.kind == K_IN_PLAIN))
       for (int i = 0, n = int(r.range(1, 3)); i < n; i++) { (void)send(pfd, junk, 1 + r.below(60), MSG_NOSIGNAL | MSG_DONTWAIT); if (r.chance(0.5)) sleepMs(double(r.below(3))); }
     if (p.peerData && pssl) (void)SSL_write(pssl, junk, int(1 + r.below(60)));
@@ -262,6 +311,8 @@ struct Run : Hist
     }
     racyRegs(sid, p, r);
     if (sid2 && (p.racyObs || p.racyUd) && r.chance(0.5)) racyRegs(sid2, p, r);
+    if (rm) readModeOverlap(sid, p, r);
+    if (rm && p.end == E_STOP && !stopWaitsForActors.load()) waitUntil([&] { auto it = sess.find(sid); return it != sess.end() && it->second.closes > 0; }, 60000);
     if (origin && p.end != E_STOP)
     {
       if (std::string(origin) == "self" && (p.kind == K_OUT_TLS_PEER || p.kind == K_IN_TLS_CLIENT || p.kind == K_OUT_PLAIN || p.kind == K_IN_PLAIN))
@@ -269,6 +320,7 @@ struct Run : Hist
       expectClose(sid, origin);
       if (sid2) expectClose(sid2, "self-loop-other-side");
     }
+    if (rm) readModeAfter(sid, p, r);
     if (pssl) SSL_free(pssl);
     if (pfd >= 0) close(pfd);
     if (lfd >= 0) close(lfd);
@@ -312,6 +364,12 @@ struct Run : Hist
     markPlan(sid, p);
     if (p.kind != K_U_IN) waitAnnOrClosed(sid, 15000);
     actorRegs(sid, p, r);
+    const bool rm = p.rm && fd >= 0 && (p.kind == K_U_IN || p.kind == K_U_OUT || p.kind == K_U_VIA) && !isClosed(sid);
+    if (rm)
+    {
+      uint16_t dst = p.kind == K_U_OUT ? T->getLocalAddress(sid).port : l0port;
+      readModeBefore(sid, p, r, [&](int n) { if (dst) udpSendTo(fd, dst, junk, size_t(std::min(n, 64))); });
+    }
     if (p.peerData && fd >= 0)
     {
       uint16_t dst = l0port;
@@ -337,7 +395,10 @@ struct Run : Hist
     }
     if (p.dataAtEnd && fd >= 0 && p.kind != K_U_OUT && r.chance(0.5)) udpSendTo(fd, l0port, junk, 1 + r.below(60)); // may open a new session: a new id
     racyRegs(sid, p, r);
+    if (rm) readModeOverlap(sid, p, r);
+    if (rm && p.end == E_STOP && !stopWaitsForActors.load()) waitUntil([&] { auto it = sess.find(sid); return it != sess.end() && it->second.closes > 0; }, 60000);
     if (origin) expectClose(sid, origin);
+    if (rm) readModeAfter(sid, p, r);
     if (fd >= 0) close(fd);
   }
 };
